@@ -13,11 +13,22 @@ Clauses, from the statement:
   P3  after the release the post-plan runs to its end before the plan is rewound and continues
   P4  control does not return to the caller while the plan is suspended
   P5  the interruption is recorded in every open run with the suspender's justification
-(that the rewind replays exactly the right messages is C04; the exit status of a suspension in a non-resumable section is C02 / C10)"""
+  P1C the pre-plan has run to its end when the engine starts to wait; a post-plan message runs only after the condition of its own suspension
+      was released
+  P1O overlapping suspensions (task group 'overlapping': every request brings its OWN condition, released by the environment independently and in
+      any order; a second request may arrive while the first helper plan waits, runs its pre-plan or its post-plan): every suspension whose
+      _start_suspender was executed stays in effect until its own condition is released - no message of the plan runs, none is replayed, before
+      all of them are; P1 is checked per suspension (the innermost waiting helper is the one that resumes)
+(that the rewind replays exactly the right messages is C04; the exit status of a suspension in a non-resumable section is C02 / C10)
+
+Suspender side (contracts/c11_hist.py, tasks suspender.history.*): what the awaitable handed to request_suspend is for a real SuspenderBase and when it
+completes, over histories of signal values - representation invariant (tripped and installed => an unreleased event is held whose wait was handed to
+the engine and that no release in flight will set) proved by induction: constructor / install, every API step from an arbitrary invariant state,
+every loop callback and timer at an arbitrary later moment."""
 import os
 
 from .t2 import *
-from .run_mon3 import c11_checks
+from .run_mon3 import c11_checks, C11
 
 PROP = "C11"
 TRUSTED = TRUSTED_T2 + [
@@ -27,7 +38,11 @@ TRUSTED = TRUSTED_T2 + [
     "set by the environment at an arbitrary moment; A-STATUS: status objects of 'set' are not followed (no 'wait' in the alphabets)",
     "P0 - P4 are stated for calls in which only suspensions are requested (no pause / abort / stop / halt alongside) and that stay resumable",
 ]
-NOT_DECIDED = "the Suspender classes themselves (C30 / C31); Pausable devices; wall-clock time of the release (time is abstract)"
+NOT_DECIDED = ("the trip / release predicates of the Suspender classes (C30) and plan-start gating / removal (C31); Pausable devices; wall-clock time of the "
+               "release (time is abstract: the settle timer fires at an arbitrary moment after it was armed, with the delay checked to be the settle time); "
+               "a trip while the engine is paused, pausing or 'suspending' (RE.state.is_running is False: the suspender makes its event but requests nothing, "
+               "and only RE.__call__ - not RE.resume - consults get_futures): no suspension is in effect then, which the statement does not cover; "
+               "thread-safety of calling loop methods from the control-system thread; more than the bounded number of overlapping requests per scenario")
 THOROUGH = os.environ.get("VERIF_TIER") == "thorough"
 
 SCENARIOS = [
@@ -38,17 +53,31 @@ SCENARIOS = [
     ("custom,checkpoint", "suspend", {}),
     ("custom,checkpoint,rewindable_off,rewindable_on", "suspend", {"suspend_plans": True, "max_requests": 2}),
     # overlapping suspensions: a second request while the first helper plan is still stacked
-    ("custom,checkpoint", "suspend", {"suspend_plans": True, "max_requests": 2, "max_depth": 3}),
+    ("custom,checkpoint", "suspend", {"suspend_plans": True, "max_requests": 2, "max_depth": 3, "exact_empty_replay": True}),
 ]
 if THOROUGH:
     SCENARIOS += [
         ("custom,checkpoint,set", "suspend", {"suspend_plans": True}),
-        ("custom,checkpoint", "suspend", {"suspend_plans": True, "max_requests": 3, "max_depth": 4, "max_inflight": 2}),
+        ("custom,checkpoint", "suspend", {"suspend_plans": True, "max_requests": 3, "max_depth": 4, "max_inflight": 2, "exact_empty_replay": True}),
         ("open_run,close_run,custom,checkpoint,set", "suspend", {"suspend_plans": True, "max_requests": 2, "re_attrs": {"record_interruptions": True}}),
     ]
 
 P1 = f"{REQ}._start_suspender#ensures[the plan stays held until the suspender's condition is released]"
 t2_tasks(PROP, "suspension", SCENARIOS, [c11_checks], expect=[P1])
+
+# overlapping suspensions with INDEPENDENT conditions (two suspenders tripped at the same time, or one suspender re-tripping inside its settle
+# time: every request brings its own event): the environment releases each condition on its own, in any order
+P1O = C11.P1O
+OVERLAPPING = [
+    # (a suspension that has started occupies two stack entries - the exhausted-later single_gen and its helper plan - so a second request
+    #  while the first helper is WAITING needs max_depth 4; max_depth 3 only admits a second request before the first helper is pushed)
+    ("custom,checkpoint", "suspend", {"suspend_plans": True, "max_requests": 2, "max_depth": 4, "independent_conditions": True}),
+    ("custom_async,checkpoint", "suspend", {"max_requests": 2, "max_depth": 4, "independent_conditions": True}),
+]
+if THOROUGH:
+    # (three requests with pre / post plans and depth 6 - three suspensions nested - does not reach closure within the task budget: > 40 min)
+    OVERLAPPING += [("custom,checkpoint", "suspend", {"max_requests": 3, "max_depth": 4, "independent_conditions": True})]
+t2_tasks(PROP, "overlapping", OVERLAPPING, [c11_checks], expect=[P1, P1O])
 
 
 def _twin(sc, tr):
@@ -63,3 +92,8 @@ def _twin(sc, tr):
 
 
 t2_tasks(PROP, "twin", [("custom,checkpoint", "suspend", {"suspend_plans": True, "max_requests": 1})], [_twin], twin="twin:nothing at all is executed while suspended")
+
+
+# ------------------------------------------------------------------------------------------------ suspender side (T1): histories of the real SuspenderBase
+from . import c11_hist  # noqa: E402,F401  (registers the tasks suspender.history.*)
+TRUSTED = TRUSTED + c11_hist.H_TRUSTED
